@@ -22,6 +22,7 @@ type SpecEnv struct {
 	entryVars map[string]Val // parameter entry values, used under old()
 	localsAfterVars bool     // explicit vars (params, results) win over same-named locals
 	freePtrs  map[string]Val // captured variables: name -> pointer to the variable's cell
+	atHead    map[string]Val // loop-step clauses: values taken at the loop head (athead(e))
 }
 
 func (env *SpecEnv) with(name string, v Val) *SpecEnv {
@@ -808,6 +809,15 @@ func (u *Unit) evalCall(st *State, env *SpecEnv, e *Spec) (Val, error) {
 		}
 		comp := map[string]string{"sent": "C_sent", "recvd": "C_recvd", "chancap": "C_cap"}[e.Name]
 		return intVal(fmt.Sprintf("(select %s %s)", u.heapGet(st, comp, "(Array Int Int)"), as[0].Terms[0])), nil
+	case "athead":
+		// athead(e), in a loop-step clause: the value e had when the iteration started
+		if len(e.Args) != 1 {
+			return Val{}, fmt.Errorf("athead(e)")
+		}
+		if v, ok := env.atHead[e.Args[0].String()]; ok {
+			return v, nil
+		}
+		return Val{}, fmt.Errorf("athead(%s) is only available in loop step clauses", e.Args[0])
 	case "now":
 		// now(x): the current value of the local variable (or parameter cell) x
 		if len(e.Args) != 1 || e.Args[0].Kind != SIdent || env.fr == nil {
